@@ -5,6 +5,7 @@ class C01(TxCheck):
     ID = "C01"
     MODE = "c01"
     LEVEL = "proof"
+    MODEL_CODES = [13, 14, 16, 902]
     N_QUICK = 120
     N_THOROUGH = 4000
     KINDS = ["balance_differs_from_ledger", "spendable_set_differs_from_ledger", "unconfirmed_set_differs_from_ledger", "store_error"]
